@@ -33,7 +33,8 @@ impl Prop for PerftCli {
     fn test(&self, _: &Ctx, case: &PerftCliCase, loc: &mut Local) -> Result<(), String> {
         let played = gen::play(starts(), &case.game);
         let p = played.positions.last().unwrap();
-        let depth = case.depth as usize;
+        // depth 1-3 as generated; every third case as deep as a node budget allows (sparse positions 5-7)
+        let depth = if case.game.picks.len() % 3 == 0 { super::c01::adaptive_depth(p, 150_000.0) } else { case.depth as usize };
         let fen = p.fen();
         let out = procdrv::run_cli(
             &["perft", "--fen", &fen, "--depth", &depth.to_string()],
